@@ -3,12 +3,17 @@ model (the loop itself is FP/Model/Search.lean). Mirrors the code as it is on th
 
 
 def hi(cls, m):
-    if cls in ("MinFlowDecomp", "MinFlowDecompCycles", "MinPathCoverCycles"):
+    if cls == "MinFlowDecomp":
+        # range(lb, |E| + #subpath constraints + 1)   (fixes 2d6e71b, e0ac661)
+        return m.G.number_of_edges() + len(m.subpath_constraints) + 1
+    if cls in ("MinFlowDecompCycles", "MinPathCoverCycles"):
         return m.G.number_of_edges() + 1        # range(lb, |E(G_internal)| + 1)  (since fix 2d6e71b)
     if cls == "MinPathCover":
         return m.G.number_of_edges()            # m.G is the (already augmented) stDAG
     if cls == "MinGenSet":
-        return max(m.lowerbound + 1, len(m.initial_numbers))
+        # range(lb, max(lb, upper) + 1), upper = #distinct numbers + 1 + sum(parts - 1)   (fix 6c30e65)
+        upper = len(set(m.numbers)) + 1 + sum(max(len(c) - 1, 0) for c in (m.partition_constraints or []))
+        return max(m.lowerbound, upper) + 1
     raise KeyError(cls)
 
 
